@@ -700,7 +700,7 @@ def _memo_kind(f, module_mutables):
     return None
 
 
-def memo_scan(tree):
+def memo_scan(tree, state_attrs=(), state_names=()):
     """(functions scanned, [(func node, memo kind, impure call node)]) for one module: memoised functions that (through calls to functions
     of the same module) read the outside world."""
     funcs = {}
@@ -722,6 +722,11 @@ def memo_scan(tree):
                     return n
                 if isinstance(n.func, ast.Attribute) and n.func.attr == "open" and A.text(n.func.value) in ("io", "os", "codecs"):
                     return n
+            # state that changes between calls (the rule registry, the symbol tables ...)
+            if isinstance(n, ast.Attribute) and n.attr in state_attrs and isinstance(n.ctx, ast.Load):
+                return n
+            if isinstance(n, ast.Name) and n.id in state_names and isinstance(n.ctx, ast.Load):
+                return n
         for n in ast.walk(f):
             if isinstance(n, ast.Call):
                 nm = n.func.id if isinstance(n.func, ast.Name) else (n.func.attr if isinstance(n.func, ast.Attribute) and
@@ -764,9 +769,10 @@ def d(name):
 '''
 
 
-def memo_purity_rule(m, rid, modules, what, floor):
+def memo_purity_rule(m, rid, modules, what, floor, state_attrs=(), state_names=()):
     r = RuleResult(rid, "no memoised function (lru_cache/cache decorator, mutable-default table, module-level table) on the %s path reads "
-                   "a file or the file system: %s" % (what[0], what[1]))
+                   "a file, the file system%s: %s" % (what[0], " or process-wide parser state (%s)" % ", ".join(list(state_attrs) + list(state_names))
+                                                      if state_attrs or state_names else "", what[1]))
     n, hits = memo_scan(ast.parse(_MEMO_POSITIVE))
     got = sorted((f.name, imp is not None) for f, k, imp in hits)
     if got != [("a", True), ("c", True), ("d", False)]:
@@ -774,15 +780,16 @@ def memo_purity_rule(m, rid, modules, what, floor):
         return r
     r.floor = floor
     for path, (_, tree) in sorted(m.files.items()):
-        if m.modname[path] not in modules:
+        if not any(m.modname[path] == x or m.modname[path].startswith(x + ".") for x in modules):
             continue
-        n, hits = memo_scan(tree)
+        n, hits = memo_scan(tree, state_attrs, state_names)
         r.instances += n
         for f, kind, imp in hits:
             r.ob(imp is None, "%s.%s memoised (%s), pure" % (m.modname[path], f.name, kind))
             if imp is not None:
-                r.fail("%s.%s|memoised-io" % (m.modname[path], f.name), "%s.%s is memoised (%s) but its result depends on the outside world "
-                       "(`%s`, line %d): the answer for a file name is remembered although the file's content can change between two reads"
+                r.fail("%s.%s|memoised-io" % (m.modname[path], f.name), "%s.%s is memoised (%s) but its result depends on state outside its "
+                       "arguments (`%s`, line %d): the answer is remembered although that state (a file's content, the rule registry "
+                       "rebuilt by ParserFactory.create ...) changes between two calls"
                        % (m.modname[path], f.name, kind, A.text(imp)[:50], imp.lineno), "%s:%s" % (m.rel(path), f.lineno))
     r.ob(True, "%d functions scanned" % r.instances)
     return r
